@@ -1,6 +1,7 @@
 package main
 
 import (
+	"bytes"
 	"context"
 	"encoding/hex"
 	"fmt"
@@ -321,5 +322,73 @@ func runC15(ctx *runCtx) {
 		}
 	}
 	askAndCompare(ctx, lines, expect, what, "ping-registry-model-vs-impl")
+	// pings received while Close waits for the peer's Close frame
+	for _, client := range []bool{false, true} {
+		for _, reader := range []string{"close", "closeread", "reader"} {
+			for _, lens := range [][]int{{0}, {5, 125, 1}} {
+				client, reader, lens := client, reader, lens
+				sh, w := guarded(30*time.Second, func() (string, string) { return pingDuringCloseWait(client, reader, lens) })
+				rep.eval(fmt.Sprintf("ping-during-close-wait/%v/%s/%v", client, reader, lens))
+				rep.count("ping-during-close-wait")
+				if sh != "" {
+					rep.violate(Violation{Kind: "property", Shape: sh, What: w, Replay: map[string]interface{}{"scenario": "ping-during-close-wait", "client": client, "reader": reader, "payload_lengths": lens}})
+				}
+			}
+		}
+	}
 	rep.sample(progs[0])
+}
+
+// pingDuringCloseWait: the endpoint has sent its Close frame and waits for the peer's; the peer has not received…
+// sent a Close frame yet and pings (RFC 6455 5.5.2: a Ping is answered unless a Close frame was already *received*).
+// Whoever is doing the reading then - Close itself, the CloseRead goroutine, an explicit reader - the pings must be
+// answered with their payloads, in order, before the peer's Close ends the handshake.
+func pingDuringCloseWait(client bool, reader string, lens []int) (string, string) {
+	a, b := newPipe()
+	c := websocket.VerifNewConn(a, client, websocket.VerifCopts{}, 0)
+	peer := newRawPeer(b, !client)
+	defer b.Close()
+	defer c.CloseNow()
+	desc := fmt.Sprintf("pings while the endpoint waits for the peer's Close frame: client=%v reader=%s payload lengths %v", client, reader, lens)
+	bg, cancel := context.WithTimeout(context.Background(), 10*time.Second)
+	defer cancel()
+	switch reader {
+	case "closeread":
+		c.CloseRead(bg)
+	case "reader":
+		go func() {
+			for {
+				if _, _, err := c.Read(bg); err != nil {
+					return
+				}
+			}
+		}()
+	}
+	closeRet := make(chan error, 1)
+	go func() { closeRet <- c.Close(websocket.StatusNormalClosure, "bye") }()
+	f, err := peer.readFrame(2 * time.Second)
+	if err != nil || f.Op != 8 {
+		return "no-close-frame", fmt.Sprintf("%s: the peer did not receive the Close frame (%v, %+v)", desc, err, f)
+	}
+	for i, n := range lens {
+		p := bytes.Repeat([]byte{byte('a' + i)}, n)
+		peer.writeFrame(RawFrame{Fin: true, Op: 9, Payload: p})
+		g, err := peer.readFrame(1500 * time.Millisecond)
+		if err != nil {
+			return "ping-unanswered-during-close-wait", fmt.Sprintf("%s: ping %d (%d bytes) sent after the endpoint's Close frame and before the peer's was not answered: %v", desc, i, n, err)
+		}
+		if g.Op != 10 || !bytes.Equal(g.Payload, p) {
+			return "wrong-pong-during-close-wait", fmt.Sprintf("%s: ping %d answered by frame op=%d payload %q", desc, i, g.Op, trunc(string(g.Payload), 40))
+		}
+	}
+	peer.writeFrame(RawFrame{Fin: true, Op: 8, Payload: f.Payload})
+	select {
+	case err := <-closeRet:
+		if err != nil {
+			return "close-failed-after-pings", fmt.Sprintf("%s: Close returned %v although the peer echoed its Close frame", desc, err)
+		}
+	case <-time.After(8 * time.Second):
+		return "close-hangs-after-pings", desc + ": Close did not return after the peer's Close frame"
+	}
+	return "", ""
 }
